@@ -405,6 +405,26 @@ NNIAround(m, x) ==
 NNISites(m) == {x \in m.nodes \ {m.root} : DegM(m, x) = 3 /\ DegM(m, m.par[x]) = 3}
 
 -----------------------------------------------------------------------------
+(* Value operations: the shape is untouched, the decorations are mapped.    *)
+(* (growth of the model beyond the listed properties: conformance only)     *)
+
+SelBr(m, n, internal, external) == n # m.root /\ ((IsTipM(m, n) /\ external) \/ (~IsTipM(m, n) /\ internal))
+ClearLengthsM(m, internal, external) ==
+  Ok({[m EXCEPT !.len = [n \in m.nodes |-> IF SelBr(m, n, internal, external) THEN NIL ELSE m.len[n]]]})
+\* ClearSupports also forgets the p-values
+ClearSupportsM(m) ==
+  Ok({[m EXCEPT !.sup = [n \in m.nodes |-> NIL], !.pv = [n \in m.nodes |-> NIL]]})
+\* factor = num / 2 (the drivers use 1/2, 1, 2 so that the product is exact); absent lengths stay absent
+ScaleLengthsM(m, num, internal, external) ==
+  Ok({[m EXCEPT !.len = [n \in m.nodes |-> IF SelBr(m, n, internal, external) /\ m.len[n] # NIL THEN (m.len[n] * num) \div 2 ELSE m.len[n]]]})
+\* simultaneous substitution on every named node (the node index is built before the first name changes); refused
+\* when names collide
+RenameM(m, from, to) ==
+  LET new(n) == IF m.nm[n] # "" /\ \E i \in 1..Len(from) : from[i] = m.nm[n]
+                THEN to[CHOOSE i \in 1..Len(from) : from[i] = m.nm[n]] ELSE m.nm[n]
+  IN  [ok |-> TRUE, res |-> {[m EXCEPT !.nm = [n \in m.nodes |-> new(n)]]}, refuse |-> TRUE]
+
+-----------------------------------------------------------------------------
 (* Dispatch: op is a record with field `op` and the arguments of the call,  *)
 (* shaped like the events of a recorded trace.                              *)
 
@@ -421,6 +441,10 @@ Apply(m, ev) ==
     [] ev.op = "Resolve"       -> Resolve(m)
     [] ev.op = "RemoveSingleNodes" -> RemoveSingleNodes(m)
     [] ev.op = "InsertIdenticalTips" -> InsertIdenticalTips(m, ev.args.groups)
+    [] ev.op = "ClearLengths"  -> ClearLengthsM(m, ev.args.internal, ev.args.external)
+    [] ev.op = "ClearSupports" -> ClearSupportsM(m)
+    [] ev.op = "ScaleLengths"  -> ScaleLengthsM(m, ev.args.num, ev.args.internal, ev.args.external)
+    [] ev.op = "Rename"        -> RenameM(m, ev.args.from, ev.args.to)
     [] ev.op \in {"RotateInternalNodes", "RotateNeighbors", "SortNeighborsByTips", "Clone", "ReinitIndexes"} -> Ok({m})
     [] OTHER -> [ok |-> TRUE, res |-> {ErrTree}, refuse |-> TRUE]
 
@@ -428,11 +452,12 @@ Apply(m, ev) ==
 Modelled(ev) == ev.op \in {"Reroot", "RerootFirst", "UnRoot", "RerootOutGroup", "RerootMidPoint", "RemoveTips",
                            "CollapseShortBranches", "CollapseLowSupport", "CollapseTopoDepth", "RemoveSingleNodes",
                            "InsertIdenticalTips", "RotateInternalNodes", "RotateNeighbors", "SortNeighborsByTips",
-                           "Clone", "ReinitIndexes"}
+                           "Clone", "ReinitIndexes", "ClearLengths", "ClearSupports", "ScaleLengths", "Rename"}
 \* ... of which these also determine the position of the root
 RootExact(ev) == ev.op \in {"Reroot", "CollapseShortBranches", "CollapseLowSupport", "CollapseTopoDepth",
                             "RemoveSingleNodes", "InsertIdenticalTips", "RotateInternalNodes", "RotateNeighbors",
-                            "SortNeighborsByTips", "Clone", "ReinitIndexes", "RerootOutGroup", "RerootMidPoint"}
+                            "SortNeighborsByTips", "Clone", "ReinitIndexes", "RerootOutGroup", "RerootMidPoint",
+                            "ClearLengths", "ClearSupports", "ScaleLengths", "Rename"}
 
 -----------------------------------------------------------------------------
 (* Judgement of one step by the listed properties (shared by the model run  *)
